@@ -146,6 +146,13 @@ pub fn exec(c: &mut Option<Chain>, op: &Value) -> Value {
                         None => Err("harness: not constructible".into()),
                     }
                 }
+                "try" => {
+                    // TryUnchecked: contract = a legal move, or the null move when not in check (the generator
+                    // only produces such values)
+                    let a = like["m"].as_array().unwrap();
+                    let m = if a[0].as_u64().unwrap() == 0 { Move::NULL } else { mv_from_json(&like["m"]).unwrap() };
+                    ch.push(unsafe { make::TryUnchecked::new(m) }).map_err(|e| e.to_string())
+                }
                 "uci" => ch.push(make::Uci(text_of(&like["text"]))).map_err(|e| e.to_string()),
                 "ucimove" => match uci::Move::from_str(&text_of(&like["text"])) {
                     Ok(u) => ch.push(u).map_err(|e| e.to_string()),
@@ -489,7 +496,7 @@ pub fn session(rng: &mut StdRng, ctx: &Ctx, start: &Board, nops: usize, profile:
                 60..=69 => json!({"op": "reset_outcome", "o": (if rng.gen_bool(0.5) { random_outcome(rng) } else { json!(["none"]) })}),
                 70..=79 => json!({"op": "calc"}),
                 80..=89 => json!({"op": "eq"}),
-                _ => json!({"op": "text", "variants": text_variants(rng, with_san)}),
+                _ => json!({"op": "text", "variants": text_variants(rng, with_san && !ch.iter().any(|m| m == Move::NULL))}),
             }
         } else {
             let (p_push, p_pop) = match profile {
@@ -497,7 +504,14 @@ pub fn session(rng: &mut StdRng, ctx: &Ctx, start: &Board, nops: usize, profile:
                 "walk" => (60, 66),
                 _ => (62, 74),
             };
-            if r < p_push {
+            if r < p_push && rng.gen_bool(0.08) {
+                // a value of the unsafe-to-construct TryUnchecked kind, within its contract
+                let m = if !ch.last().is_check() && rng.gen_bool(0.6) { Some(Move::NULL) } else { crate::posgen::pick_move(rng, ch.last()) };
+                match m {
+                    Some(m) => json!({"op": "push", "like": {"t": "try", "m": (if m == Move::NULL { json!([0, 0, 0, 0]) } else { mv_json(m) })}}),
+                    None => json!({"op": "calc"}),
+                }
+            } else if r < p_push {
                 let n = ch.len();
                 let sp = if profile == "shuffle" && n >= 2 { prev_own.get(n - 2).copied() } else { None };
                 json!({"op": "push", "like": random_like(rng, ctx, ch.last(), with_san, sp)})
@@ -519,7 +533,7 @@ pub fn session(rng: &mut StdRng, ctx: &Ctx, start: &Board, nops: usize, profile:
                         json!({"op": "walk", "steps": steps})
                     }
                     11 => json!({"op": "eq"}),
-                    _ => json!({"op": "text", "variants": text_variants(rng, with_san)}),
+                    _ => json!({"op": "text", "variants": text_variants(rng, with_san && !ch.iter().any(|m| m == Move::NULL))}),
                 }
             }
         };
@@ -528,6 +542,20 @@ pub fn session(rng: &mut StdRng, ctx: &Ctx, start: &Board, nops: usize, profile:
         let ch = c.as_ref().unwrap();
         prev_own = ch.iter().collect();
         evs.push(ev);
+    }
+    // the printed check / mate mark of the last move must come from the position, not from the stored outcome
+    let has_null = c.as_ref().unwrap().iter().any(|m| m == Move::NULL);
+    let with_san = with_san && !has_null;     // a null move has no SAN spelling (styled(San) panics on it by design)
+    if with_san {
+        let ch = c.as_ref().unwrap();
+        if ch.len() >= 1 && ch.last().is_check() {
+            let mover = ch.last().side().inv();
+            for o in [json!(["win", color_ix(mover), "checkmate"]), json!(["draw", "stalemate"]), json!(["none"])] {
+                evs.push(exec(&mut c, &json!({"op": "reset_outcome", "o": o})));
+                evs.push(exec(&mut c, &json!({"op": "text", "variants": [{"nums": "board", "style": "san", "status": true},
+                                                                          {"nums": "omit", "style": "sanutf8", "status": false}]})));
+            }
+        }
     }
     // closing observations
     for op in [json!({"op": "calc"}), json!({"op": "walk", "steps": ["end", "prev", "prev", "start", "next", "next", "end", "prev"]}),
